@@ -1,5 +1,6 @@
 """C20 - derived enums map mnemonics to variants and back consistently."""
 from .. import facts, fdai, scpi_models as M, sym
+from . import contrib as CB_
 from ..fdai import EnumV, AggV, K, SymV, RefV, Cell, Loc, TOP, load, snapshot, BytesV
 from . import dispatch as D, convert as CV
 from .c08 import C_bytes
@@ -214,7 +215,7 @@ def run(R, tier):
                 def own(e):
                     g = " ".join(str(x) for x in ((e.extra or {}).get("gargs") or ())) + " " + str((e.extra or {}).get("self_ty") or "") + " " + str(e.rname)
                     return adt_path.split("::")[-1] in g or "Self" in g
-                calls_ok = all(any(e.kind == "call" and e.name.endswith("from_mnemonic") and ("tok-CharacterProgramData-0") in repr(e.args[0]) and own(e) for e in r.trace) for r in rr)
+                calls_ok = all(any(e.kind == "call" and e.name.endswith("from_mnemonic") and CB_.holds(e.args[0], "tok-CharacterProgramData-0") and own(e) for e in r.trace) for r in rr)
                 if not (oc == {"Ok", "Err(IllegalParameterValue)"} and calls_ok):
                     rowbad[name] = sorted(oc)
             elif oc != {"Err(DataTypeError)"}:
